@@ -1,9 +1,20 @@
 #!/bin/sh
-# Offline setup: verify the tools the checks need and warm the spec-only graph cache.
+# Offline setup: verify the tools the checks need, then pre-compute the spec-only artefacts (the
+# transition graphs / behaviours TLC derives from the TLA+ specifications alone) into .cache/.
 set -e
 cd "$(dirname "$0")"
 command -v java >/dev/null || { echo "java missing"; exit 1; }
 test -f /opt/veriftools/tla/tla2tools.jar || { echo "tla2tools.jar missing"; exit 1; }
-/venv/bin/python -c "import google.protobuf, intervaltree, sortedcontainers, networkx" 
-chmod +x check tools/*.sh tools/*.py 2>/dev/null || true
-PYTHONHASHSEED=0 /venv/bin/python -m harness.selftest
+/venv/bin/python -c "import google.protobuf, intervaltree, sortedcontainers, networkx"
+chmod +x check tools/*.sh tools/*.py harness/java/build.sh 2>/dev/null || true
+export PYTHONHASHSEED=0
+/venv/bin/python -m harness.selftest
+if [ -z "$VERIF_NO_WARM" ]; then
+  # one representative per family of configurations; the others of the family share its graphs
+  for p in C16 C05 C12 C10 C11 C13 C19 C09 C18; do
+    VERIF_WARM=1 VERIF_EVID=/tmp/gtirbverif-warm-evid ./check $p --tier quick >/dev/null 2>&1 &
+  done
+  wait
+  rm -rf /tmp/gtirbverif-warm-evid
+fi
+echo "setup done"
